@@ -959,6 +959,24 @@ func (c *Cluster) classifyC13(v *Violation) {
 		// (b) the reset node lacks a witness of the round it was reset to (or the
 		// one before): its roots only go ROOT_DEPTH events back per creator
 		nstore := n.core().Hashgraph().Store
+		// "holds" a witness: it is registered as a witness of that round in the
+		// reset hashgraph (a persistent node's database still returns pre-reset
+		// events that are no part of the hashgraph it was reset to)
+		holds := func(r int, w string) bool {
+			if _, err := nstore.GetEvent(w); err != nil {
+				return false
+			}
+			rin, err := nstore.GetRound(r)
+			if err != nil {
+				return false
+			}
+			for _, x := range rin.Witnesses() {
+				if x == w {
+					return true
+				}
+			}
+			return false
+		}
 		for r := lb - 1; r <= lb; r++ {
 			if r < 0 {
 				continue
@@ -970,7 +988,7 @@ func (c *Cluster) classifyC13(v *Violation) {
 			ws := ri.Witnesses()
 			sort.Strings(ws)
 			for _, w := range ws {
-				if _, err := nstore.GetEvent(w); err != nil {
+				if !holds(r, w) {
 					v.Key = "reset-node-lacks-witness-beyond-root-depth"
 					v.Message += fmt.Sprintf(" [class: reset node %d (anchor round %d) does not hold witness %s of round %d: the frame's roots only reach %d events back per creator, so rounds of new events are computed from an incomplete witness list]", n.idx, lb, short(w), r, hg.ROOT_DEPTH)
 					return
@@ -1028,7 +1046,7 @@ func (c *Cluster) classifyC13(v *Violation) {
 				ws := ri.Witnesses()
 				sort.Strings(ws)
 				for _, w := range ws {
-					if _, err := nstore.GetEvent(w); err != nil {
+					if !holds(r, w) {
 						v.Key = "reset-node-lacks-witness-beyond-root-depth"
 						v.Message += fmt.Sprintf(" [class: reset node %d (anchor round %d) gives event %s round %d (full-history nodes: %d) because it does not hold witness %s of round %d: the frame holds at most %d consensus events back per creator]", n.idx, lb, short(de.Hash), en.SimRound(), ef.SimRound(), short(w), r, hg.ROOT_DEPTH)
 						return
